@@ -6,7 +6,7 @@ from props import _family as F
 PROOF_MODULES = ['Jwt.Props.C01', 'Jwt.Props.C05Ec']
 PROP_MODULES = ['Jwt.Props.C01', 'Jwt.Props.C05Ec']
 PROP_FILES = ['Jwt/Props/C01.lean', 'Jwt/Props/C05Ec.lean', 'Jwt/Lemmas/EcFrame.lean']
-GENERATED_FACT_THEOREMS = 1
+GENERATED_FACT_THEOREMS = 2
 CHECKER_CMD = "cd lean && lake build Jwt.Props.C01 && lake env lean <generated #print axioms file>"
 LEVEL_TEXT = ("Lean theorem C01_sound for every Crypto oracle, JSON codec, provider, checker state, callback and token: rc=0 with a key => token splits at its first two dots, header alg = pinned alg, and the third segment is oracle-valid under that key/alg over the raw first two segments (HMAC: textual equality via jwt_strcmp = 0 <-> equal). For ES* the provider glue's r||s handling is inside the model (Jwt/EcFrame.lean over constants regenerated from both sign-verify.c): C01_ecdsa_exact_form proves that on either provider only the algorithm's exact 2w-octet form reaches the library, as the pair of integers it denotes. Cryptographic validity itself is the oracle; model tied to the code by systematic mutation of valid tokens for every key type on OpenSSL and GnuTLS against an independent EVP oracle.")
 ASSUMPTIONS = F.COMMON_ASSUME + ['base64 text malleability of the signature segment (same decoded bytes) is outside C01 for public-key algorithms and counted, not alarmed (DESIGN 10.1)']
